@@ -53,6 +53,10 @@ func (f *Field[T]) ToBitsCanonical(a *Element[T]) []frontend.Variable {
 	}
 	ca := f.ReduceStrict(a)
 	bts := f.ToBits(ca)
+	// an element given on fewer limbs than the modulus (e.g. a small constant) has fewer bits
+	for len(bts) < nbBits {
+		bts = append(bts, 0)
+	}
 	return bts[:nbBits]
 }
 
